@@ -243,6 +243,16 @@ def run(chk):
             world.history = W.loaded_archive_history(world, graph, pre, ss, shared)
             history_oracle(chk, world, hcase)
             chk.count("loaded-archive-history:" + shared)
+            if world.history[0] is None and world.history_pruned is not None:
+                # the model's archivePrune / runComponents against what dr.run pruned and evaluated
+                lines.extend(world.lines(pre))
+                lines.append(world.history_graph_line)
+                impl.append("keys=" + ",".join(str(c) for c in world.history_pruned))
+                cases.append(dict(hcase, archive_prune=True))
+                lines.append(world.run_line(ss, world.history_fired, world.history_pruned))
+                impl.append(world.history_text)
+                cases.append(dict(hcase, archive_run=True))
+                chk.count("loaded-archive:pruned-%d" % min(3, len(graph) - len(world.history_pruned)))
             graph_after = world.graph_for(targets)
             if dropped is not None:
                 graph_after.pop(world.comps[dropped], None)
